@@ -66,7 +66,9 @@ def reparse_if_needed(student_code=None, report=MAIN_REPORT):
     cait = report[TOOL_NAME]
     if student_code is not None:
         if student_code in cait['cache']:
+            # Only code that parsed is cached; an earlier failure must not linger
             cait['ast'] = cait['cache'][student_code]
+            cait['success'], cait['error'] = True, None
             return cait
         else:
             student_ast = _parse_source(student_code, report=report)
@@ -75,13 +77,17 @@ def reparse_if_needed(student_code=None, report=MAIN_REPORT):
         # Have we already parsed this code?
         if student_code in cait['cache']:
             cait['ast'] = cait['cache'][student_code]
+            cait['success'], cait['error'] = True, None
             return cait
         # Try to steal parse from Source module, if available
         if report[SOURCE_TOOL_NAME]['success']:
             student_ast = report[SOURCE_TOOL_NAME]['ast']
+            cait['success'], cait['error'] = True, None
         else:
             student_ast = _parse_source(student_code, report=report)
-    cait['ast'] = cait['cache'][student_code] = CaitNode(student_ast, report=report)
+    cait['ast'] = CaitNode(student_ast, report=report)
+    if cait['success']:
+        cait['cache'][student_code] = cait['ast']
     return cait
 
 
